@@ -216,5 +216,5 @@ func IsGeneratedFile(file string) bool {
 func init() {
 	metaRe = regexp.MustCompile(`^\.datamon/(.*)\.yaml$`)
 	flRe = regexp.MustCompile(`^(.*)-` + bundleFilesIndexPrefix + `(.*)$`)
-	genFileRe = regexp.MustCompile(`^\.datamon/.*|^/\.datamon/.*|^/\.datamon$|^\.datamon$|^\./\.datamon/.*|^\./\.datamon$|^\.?/?\.conflicts(/.*|$)|^\.?/?\.checkpoints(/.*|$)`)
+	genFileRe = regexp.MustCompile(`^\.datamon/.*|^/\.datamon/.*|^/\.datamon$|^\.datamon$|^\./\.datamon/.*|^\./\.datamon$|^(\./|/)?\.conflicts(/.*|$)|^(\./|/)?\.checkpoints(/.*|$)`)
 }
